@@ -148,6 +148,24 @@ def run(P, rep, roots, rule="PURE", allow_param_writes=(), stream_rule=None, pid
     return E, R, S, random_callers
 
 
+def no_swallow(P, rep, roots, rule="EXC.propagate"):
+    """an exception raised by the library reaches the caller of an entry point"""
+    rep.rule(rule, "no query entry point (World members, C and C++ interface functions) contains a try block: a refusal raised below "
+                   "(WBAssertThrow) is never caught and turned into a normal return")
+    n = 0
+    for F in roots:
+        if F.body is None:
+            continue
+        n += 1
+        tr = [x for x in F.walk() if x.get("k") in ("CXXTryStmt", "CXXCatchStmt")]
+        if tr:
+            rep.violation(rule, "%s contains a try/catch" % F.qn, F.nloc(tr[0]), F.qn, "", "an exception thrown for an invalid query is swallowed: the caller "
+                          "gets a normal return with unset values", key="%s|%s" % (rule, F.qn), witness="a query the library refuses (2D query on a world without cross section)")
+        else:
+            rep.ok(rule, "%s: no handler" % F.qn, F.loc, F.qn)
+    rep.floor(rule, n, 1, "entry points")
+
+
 def stream_io(P, rep, R, rule="PURE.io"):
     """no I/O on shared streams (std::cout/cerr/clog) in the reachable set"""
     rep.rule(rule, "no reachable function touches std::cout/std::cerr/std::clog or C stdio, opens a file stream, or consults the environment (getenv, system)")
